@@ -100,8 +100,8 @@ func inWaiterCode(stack string) bool {
 
 func shortStack(s string) string {
 	lines := strings.Split(s, "\n")
-	if len(lines) > 14 {
-		lines = lines[:14]
+	if len(lines) > 30 {
+		lines = lines[:30]
 	}
 	return strings.Join(lines, "\n")
 }
@@ -236,6 +236,19 @@ func graph(path string) {
 			}
 			return "?"
 		}
+		// cyclic: do the next pointers of the entries form a cycle (then a walk need not end)?
+		cyclic := func() bool {
+			for _, x := range ents {
+				var it ilist.Element = &x.e
+				for i := 0; it != nil; i++ {
+					if i > len(names)+1 {
+						return true
+					}
+					it = it.Next()
+				}
+			}
+			return false
+		}
 		bad := false
 		mm := func(si int, kind, what string, want, got interface{}) {
 			if kind == "drift" {
@@ -282,19 +295,12 @@ func graph(path string) {
 			default:
 				vh.Fatal("unknown action %s", st.Act)
 			}
-			// an operation that keeps running is waited for ~4 s; when the next pointers already form
+			// an operation that keeps running is waited for ~10 s; when the next pointers already form
 			// a cycle the walk is expected not to end and the wait is short (the outcome "spinning"
 			// never decides a violation, it only leaves this path without a verdict)
-			spin := 160
-			for _, x := range ents {
-				var it ilist.Element = &x.e
-				for i := 0; it != nil; i++ {
-					if i > len(names)+1 {
-						spin = 8
-						break
-					}
-					it = it.Next()
-				}
+			spin := 400
+			if cyclic() {
+				spin = 8
 			}
 			status, detail := runOp(f, spin)
 			switch status {
@@ -338,7 +344,9 @@ func graph(path string) {
 			for _, r := range regl {
 				wm |= maskOf(vh.Strs(vh.Map(r)["m"]))
 			}
-			if got := q.Events(); got != wm {
+			if cyclic() {
+				mm(si, "drift", "next pointers form a cycle", nil, nil)
+			} else if got := q.Events(); got != wm {
 				mm(si, "drift", "Queue.Events()", int(wm), int(got))
 			}
 			if got := q.IsEmpty(); got != (len(regl) == 0) {
@@ -375,6 +383,8 @@ type op struct {
 	E    int      // entry index
 	M    []string // mask
 	Spin int      // Gosched calls before the operation
+	Wait int      // microseconds slept before the operation (spreads the operations over the
+	// time in which a notifier sits inside a sleeping callback)
 }
 
 var kindSets = [][]string{
@@ -420,6 +430,9 @@ func plan(r *rand.Rand, g, K int, names []string, wide bool) []op {
 	var out []op
 	for k := 0; k < K; k++ {
 		o := op{Spin: r.Intn(4)}
+		if r.Intn(2) == 0 {
+			o.Wait = 1 + r.Intn(150)
+		}
 		x := r.Intn(100)
 		switch {
 		case owner && (x < 45 || (k == 0 && x < 80)):
@@ -461,7 +474,7 @@ func race(out string, seed int64, hists, Gmax, K int) {
 		if Gmax > 2 {
 			G = 2 + r.Intn(Gmax-1)
 		}
-		yield := r.Intn(4) // 0 none, 1 Gosched, 2/3 short sleep inside callbacks (widens the window in which a walk is in progress)
+		yield := r.Intn(6) // 0 none, 1 Gosched, 2.. short sleep inside callbacks (widens the window in which a walk is in progress)
 		q := &waiter.Queue{}
 		ents := make([]*ent, len(names))
 		var cbCount int64
@@ -482,7 +495,7 @@ func race(out string, seed int64, hists, Gmax, K int) {
 				case 1:
 					runtime.Gosched()
 					runtime.Gosched()
-				case 2, 3:
+				case 2, 3, 4, 5:
 					time.Sleep(yd)
 				}
 			})
@@ -540,6 +553,9 @@ func race(out string, seed int64, hists, Gmax, K int) {
 				for _, o := range plans[g] {
 					if atomic.LoadInt32(&panicked) != 0 {
 						return
+					}
+					if o.Wait > 0 && G > 1 {
+						time.Sleep(time.Duration(o.Wait) * time.Microsecond)
 					}
 					for i := 0; i < o.Spin; i++ {
 						runtime.Gosched()
@@ -620,8 +636,8 @@ func race(out string, seed int64, hists, Gmax, K int) {
 					noprog = 0
 				}
 				lastN = n
-				if noprog >= 400 && still < 5 {
-					// ~20 s without a single log line, workers neither finished nor parked: busy
+				if noprog >= 1200 && still < 5 {
+					// ~60 s without a single log line, workers neither finished nor parked: busy
 					// (e.g. walking a cyclic list that contains no callback entry)
 					tr.Log(map[string]interface{}{"ev": "hang", "states": states, "spinning": true, "in_waiter_code": false, "stacks": []string{}})
 					sum["stopped"] = "spinning"
